@@ -127,16 +127,27 @@ fn canon_diags(d: &Value) -> Vec<String> {
 }
 
 /// final (op index, version, text) per URI that is still open at the end
-fn final_edits(spec: &Value) -> BTreeMap<String, (usize, i64, String)> {
+fn final_edits(spec: &Value) -> BTreeMap<String, (usize, i64, String, u64)> {
     let mut m = BTreeMap::new();
+    // the lookahead limit in effect when an edit is handled: `-k`, then the initialization
+    // options, then every workspace/didChangeConfiguration seen so far
+    let mut cur_k = spec["max_k"].as_u64().unwrap_or(3);
+    if let Some(k) = spec["init"]["initializationOptions"]["max_k"].as_u64() {
+        cur_k = k;
+    }
     for (i, op) in spec["ops"].as_array().into_iter().flatten().enumerate() {
         let u = op["uri"].as_str().unwrap_or("").to_string();
         match op["t"].as_str() {
             Some("open") | Some("change") => {
-                m.insert(u, (i, op["version"].as_i64().unwrap_or(0), op["text"].as_str().unwrap_or("").to_string()));
+                m.insert(u, (i, op["version"].as_i64().unwrap_or(0), op["text"].as_str().unwrap_or("").to_string(), cur_k));
             }
             Some("close") => {
                 m.remove(&u);
+            }
+            Some("config") => {
+                if let Some(k) = op["settings"]["max_k"].as_u64() {
+                    cur_k = k;
+                }
             }
             _ => {}
         }
@@ -148,13 +159,8 @@ fn final_edits(spec: &Value) -> BTreeMap<String, (usize, i64, String)> {
 /// and a reference is then shared by all runs that end in the same (uri, version, text, k).
 const REF_HASH_SEED: u64 = 0x5EED;
 
-fn ref_key(uri: &str, version: i64, text: &str, spec: &Value) -> String {
-    format!(
-        "{uri}|{version}|{}|{}|{}",
-        simcore::fnv_hex(text.as_bytes()),
-        spec["max_k"],
-        simcore::fnv_hex(spec["init"].to_string().as_bytes())
-    )
+fn ref_key(uri: &str, version: i64, text: &str, k: u64) -> String {
+    format!("{uri}|{version}|{}|{k}", simcore::fnv_hex(text.as_bytes()))
 }
 
 struct C29Stats {
@@ -266,8 +272,8 @@ fn check_c29(spec: &Value, rec: &Value, refs: &BTreeMap<String, Value>, stats: O
     }
 
     if main_ok {
-        for (uri, (op_idx, version, text)) in &finals {
-            let rk = ref_key(uri, *version, text, spec);
+        for (uri, (op_idx, version, text, k)) in &finals {
+            let rk = ref_key(uri, *version, text, *k);
             let Some(reference) = refs.get(&rk) else { continue };
             if reference["main"]["exit"] != "ok" || reference.get("harness_error").is_some() {
                 local.reference_crash += 1;
@@ -342,10 +348,10 @@ fn check_c29(spec: &Value, rec: &Value, refs: &BTreeMap<String, Value>, stats: O
 fn needed_refs(spec: &Value) -> Vec<(String, Value)> {
     final_edits(spec)
         .into_iter()
-        .map(|(uri, (_, version, text))| {
+        .map(|(uri, (_, version, text, k))| {
             (
-                ref_key(&uri, version, &text, spec),
-                reference_spec(&uri, version, &text, spec["max_k"].as_u64().unwrap_or(3), REF_HASH_SEED, &spec["init"]),
+                ref_key(&uri, version, &text, k),
+                reference_spec(&uri, version, &text, k, REF_HASH_SEED, &json!({"capabilities": {}})),
             )
         })
         .collect()
@@ -735,10 +741,10 @@ fn gen_specs(property: &str, seed: u64, tier: Tier, corpus: &Corpus, n: usize) -
             // swarm: a third of the runs are short histories on one document, fault free
             let shape = rng.below(6);
             let cfg = match shape {
-                0 | 1 => C29Config { max_docs: 1, max_edits: 3, faulty: false },
-                2 => C29Config { max_docs: 2, max_edits: 5, faulty: false },
-                3 => C29Config { max_docs: 1, max_edits: 4, faulty: true },
-                _ => C29Config { max_docs: 3, max_edits: if tier == Tier::Thorough { 12 } else { 8 }, faulty: true },
+                0 | 1 => C29Config { max_docs: 1, max_edits: 3, faulty: false, reopen: false, config_changes: false },
+                2 => C29Config { max_docs: 2, max_edits: 5, faulty: false, reopen: true, config_changes: false },
+                3 => C29Config { max_docs: 1, max_edits: 4, faulty: true, reopen: true, config_changes: true },
+                _ => C29Config { max_docs: 3, max_edits: if tier == Tier::Thorough { 12 } else { 8 }, faulty: true, reopen: true, config_changes: true },
             };
             workload::gen_c29(&mut rng, corpus, &cfg)
         } else {
